@@ -1200,7 +1200,7 @@ def replay(ck, path):
 
 def main():
     ck = Check("C01", "translation_validation")
-    ck.lean_stage(["VelaVerif.Props.C01", "VelaVerif.Props.C01Rewrites", "VelaVerif.Props.C01Wide", "VelaVerif.Props.C01Packing",
+    ck.lean_stage(["VelaVerif.Props.C01", "VelaVerif.Props.C01Rewrites", "VelaVerif.Props.C01Rewrites2", "VelaVerif.Props.C01Wide", "VelaVerif.Props.C01Packing",
                    "VelaVerif.Props.C01Slice"])
     if ck.replay_arg:
         replay(ck, ck.replay_arg)
@@ -1212,7 +1212,7 @@ def main():
     import time
 
     t0 = time.time()
-    rw = c01_rewrites.run(ck)
+    rw = c01_rewrites.run(ck, also=("c01_rewrites2",))
     ck.count("seconds_rewrite_streams", round(time.time() - t0))
     # pass packing: the model of pack_into_passes (Model/PassPacking.lean) against the real function on generated graphs; the
     # subgraphs of the networks compiled below are judged after the compile stage
